@@ -167,6 +167,8 @@ const prelude = `(set-option :produce-models true)
 (define-fun absI ((a Int)) Int (ite (>= a 0) a (- a)))
 (declare-fun pow2 (Int) Int)
 (declare-fun bitlen (Int) Int)
+(assert (forall ((x Int)) (! (and (>= (bitlen x) 0) (<= (bitlen x) 4611686018427387904) (= (= x 0) (= (bitlen x) 0))) :pattern ((bitlen x)))))
+(assert (forall ((x Int)) (! (>= (pow2 x) 1) :pattern ((pow2 x)))))
 (declare-fun powmod (Int Int Int) Int)
 (declare-fun ipow (Int Int) Int)
 (declare-fun hasinv (Int Int) Bool)
